@@ -341,6 +341,14 @@ func (dec *Decoder) readReference() interface{} {
 }
 
 func (dec *Decoder) convertReference(o interface{}, p interface{}) {
+	if o == nil {
+		// an invalid index (already reported) or a placeholder entry of the
+		// reference table: there is nothing to convert
+		if dec.Error == nil {
+			dec.Error = CastError{Destination: reflect.TypeOf(p).Elem()}
+		}
+		return
+	}
 	src := reflect.TypeOf(o)
 	dest := reflect.TypeOf(p).Elem()
 	if conv := GetConverter(src, dest); conv != nil {
